@@ -348,7 +348,8 @@ def zone_task(task):
                 n += 1
                 got = [impl.date(text), ("date", impl.parse_deletion_date(text)), ("date", impl.maybe(text))]
                 if any(g != ("date", written) for g in got):
-                    bad.append({"zone": os.fsdecode(zone), "written": str(written), "read_back": [str(g[1]) for g in got]})
+                    bad.append({"zone": os.fsdecode(zone), "written": str(written), "read_back": [str(g[1]) for g in got],
+                                "directed": {"fn": "zone_task", "task": {"seed": task["seed"], "i": task["i"]}}})
                     break
             if bad:
                 break
@@ -427,6 +428,11 @@ def replay_case(ck, impl, drv, case):
 
 
 def replay(path):
+    import sys
+    from ..core import replay_directed
+    rc = replay_directed(sys.modules[__name__], "C03", path)
+    if rc is not None:
+        return rc
     ck = Check("C03", "quick", 0)
     impl = Impl()
     drv = Driver()
